@@ -2,6 +2,7 @@
 enumeration loop."""
 from ..absint import GenericInterp, Opaque
 from ..extract import AnalysisBroken
+import re
 from ..sem import Sem, Flow, term, unwrap, real_args
 
 
@@ -368,4 +369,36 @@ def run_lookup_via(prog, rep):
                        'the text argument is looked up with %s only: a child whose name has the shape of an id (legal) is not found under its name, index access and every search built on it skip it' % nm)
     if n < 6:
         raise AnalysisBroken('R-LOOKUP-VIA: only %d text lookups found' % n)
+    return rule
+
+
+PARTIAL_COMPARE = ('strncmp', 'strncasecmp', 'strcasecmp', 'stricmp', 'strnicmp', 'iequals', 'starts_with', 'istarts_with', 'ends_with', 'iends_with',
+                   'ilexicographical_compare', 'icontains', 'contains', 'wcsncmp')
+
+
+def run_exact_compare(prog, rep):
+    """names, ids and keys are compared as whole, case-sensitive strings everywhere in the library"""
+    rule = rep.rule('R-EXACTCMP', 'no library function compares names / ids / keys partially or case-insensitively (strncmp, iequals, starts_with, compare(pos, n, ..)): a name that is a prefix or a case variant of another is a different name', floor=1)
+    nexact = 0
+    bad = []
+    for f in sorted(prog.funcs.values(), key=lambda f: (f.file, f.line)):
+        if f.body is None or not f.q.startswith('nix::') or not f.file or prog.rel(f.file).startswith('/'):
+            continue
+        for c in f.calls():
+            nm = (c.callee or {}).get('name') or ''
+            q = (c.callee or {}).get('q') or ''
+            if c.get('op') in ('==', '!=') and ('string' in repr([x.t for x in c.c if x is not None]) or 'string' in (c.callee.get('sig') or '')):
+                nexact += 1
+            args = [a for a in real_args(c) if a is not None]
+            if nm in PARTIAL_COMPARE and (q.startswith('boost::') or q.startswith('std::') or '::' not in q):
+                bad.append((f, c, nm))
+            elif nm == 'compare' and 'basic_string' in q and len(args) > 1:
+                bad.append((f, c, 'compare(pos, n, ...)'))
+    if nexact < 5:
+        raise AnalysisBroken('R-EXACTCMP: only %d whole-string comparisons seen (scan broken?)' % nexact)
+    if not bad:
+        rule.ok('library|whole-string-comparisons', 'src', 'nix::*', '%d whole-string comparisons (operator== / != on std::string), no partial or case-insensitive comparison' % nexact)
+    for f, c, nm in bad:
+        k = len([x for x in bad if x[0] is f and x[1].id < c.id])
+        rule.bad('%s|%s|%d' % (re.sub(r'<.*', '', f.q), nm, k), rep.where(c), f.label(), '%s compares only a part of the text or ignores case (%s): a name / key that is a prefix or a case variant of another one is taken for it' % (nm, c.src(60)))
     return rule
